@@ -2,7 +2,7 @@
    Glue: decodes a request, runs the model, prints the observables in canonical form. *)
 From Coq Require Import List String Ascii ZArith NArith Bool.
 From QRB Require Import Base.Bytes Model.W Model.Values Model.Compile Model.Sexp Model.Decode.
-From QRB Require Import Meta.Regex Gen.Regex Model.WArgs.
+From QRB Require Import Meta.Regex Gen.Regex Model.WArgs Model.Wfe Pg.Lexer.
 Import ListNotations.
 Local Open Scope string_scope.
 
@@ -46,6 +46,14 @@ Definition show_result (r : result nat) : string :=
   | ROk sql a e =>
       "OK s" ++ hex (bytes_of sql) ++ " [" ++ join_with "," (map show_arg a) ++ "] s"
         ++ hex (join_with nl (map err_text e))
+  end.
+
+Definition show_token (t : token) : string :=
+  match t with
+  | TWord s => "W" ++ hex s | TQIdent s => "Q" ++ hex s | TUIdent s => "U" ++ hex s
+  | TStr s => "S" ++ hex s | TNum s => "N" ++ hex s | TParam s => "P" ++ hex s | TOp s => "O" ++ hex s
+  | TSelf c => "C" ++ hex (String c "") | TCast => "::" | TDotDot => ".." | TColonEq => ":="
+  | TBad c => "B" ++ hex (String c "")
   end.
 
 Definition d_named (x : sexp) : option (list (string * nat)) :=
@@ -96,6 +104,17 @@ Definition handle (x : sexp) : string :=
           end
       | _, _, _, _ => "DECODEFAIL"
       end
+  | SList [SAtom "lex"; scs; s] =>
+      match d_bool scs, d_str s with
+      | Some b, Some s' =>
+          match pg_lex b s' with
+          | Some ts => "TOK " ++ join_with " " (map show_token ts)
+          | None => "LEXERR"
+          end
+      | _, _ => "DECODEFAIL"
+      end
+  | SList [SAtom "wfe"; e] =>
+      match decode_exp e with Some e' => if wfe e' then "T" else "F" | None => "DECODEFAIL" end
   | SList [SAtom "validident"; s] =>
       match d_str s with Some s' => if valid_ident s' then "T" else "F" | None => "DECODEFAIL" end
   | SList [SAtom "validtype"; s] =>
